@@ -13,7 +13,7 @@ let register () =
         let bad = Stdlib.List.map int_of_string (split_on ',' bad) in
         let job_ok k = not (Stdlib.List.mem (int_of_nat k) bad) in
         let cancel_at = if cat = "-" then None else Some (nat_of_int (int_of_string cat)) in
-        (match Cancel.pool_outcomes (nat_of_int (int_of_string njobs)) job_ok (nat_of_int (int_of_string nw)) cancel_at (nat_of_int 2000000) with
+        (match Cancel.pool_outcomes (nat_of_int (int_of_string njobs)) job_ok (nat_of_int (int_of_string nw)) cancel_at (nat_of_int 400000) with
          | None -> "NONE"
          | Some outs ->
              let l = Stdlib.List.map (fun (r, c) -> res_name r ^ ":" ^ (if c then "1" else "0")) outs in
